@@ -202,6 +202,24 @@ def case_web(rng, choice=None):
     row2 = ECOBENCHMARK_DF[(ECOBENCHMARK_DF["service"] == other) & (ECOBENCHMARK_DF["use_case"] == impl)].iloc[0]
     if not close_q(phys(jobA.compute_needed), (frac(float(row2["avg_cpu_core_per_request"])), (0, 0, 0, 1, 0))):
         vs.append(("web-not-refreshed:technology", f"compute needed not refreshed after switching {tech} → {other}"))
+    if not close_q(phys(jobA.ram_needed), (frac(float(row2["avg_ram_per_request_in_MB"])) * 8 * 10 ** 6, (0, 0, 0, 0, 0))):
+        vs.append(("web-not-refreshed:technology", f"RAM needed not refreshed after switching {tech} → {other}"))
+    # … and the implementation of the job
+    impls_ok = [i for i in impls if i != impl and len(ECOBENCHMARK_DF[(ECOBENCHMARK_DF["service"] == other) & (ECOBENCHMARK_DF["use_case"] == i)])]
+    if impls_ok:
+        impl2 = rng.choice(impls_ok)
+        jobA.implementation_details = SourceObject(impl2)
+        row3 = ECOBENCHMARK_DF[(ECOBENCHMARK_DF["service"] == other) & (ECOBENCHMARK_DF["use_case"] == impl2)].iloc[0]
+        if not close_q(phys(jobA.compute_needed), (frac(float(row3["avg_cpu_core_per_request"])), (0, 0, 0, 1, 0))):
+            vs.append(("web-not-refreshed:implementation_details", f"compute needed not refreshed after switching {impl} → {impl2}"))
+        if not close_q(phys(jobA.ram_needed), (frac(float(row3["avg_ram_per_request_in_MB"])) * 8 * 10 ** 6, (0, 0, 0, 0, 0))):
+            vs.append(("web-not-refreshed:implementation_details", f"RAM needed not refreshed after switching {impl} → {impl2}"))
+    # after the edits the builder model still equals the plain model carrying the derived parameters
+    derived2 = {k: SourceValue(getattr(jobA, k).value) for k in derived}
+    sysC, _, _ = mk(derived2)
+    why = sysoracles.obs_diff(footprints(sysA), footprints(sysC))
+    if why:
+        vs.append(("web-application-differs-from-plain-job-after-edit", why))
     return vs, {"builder": "web", "choice": [tech, impl], "mixed_with_plain_job": mixed}
 
 
